@@ -42,6 +42,9 @@ def token_claim(buf, t, dynamic, lo=0, hi=None):
     hi = len(buf) if hi is None else hi
     if not (lo <= s <= e <= hi):
         return 'token %s %r [%d,%d) lies outside the input window [%d,%d)' % (ty, val, s, e, lo, hi)
+    if type(t.value) is not type(buf) or t.value != buf[s:e]:
+        return ('token %s: value %r (python type %s) is not the %s text[%d:%d] = %r'
+                % (ty, t.value, type(t.value).__name__, type(buf).__name__, s, e, buf[s:e]))
     if as_text(buf[s:e]) != val:
         return 'token %s: text[%d:%d] = %r differs from the value %r' % (ty, s, e, as_text(buf[s:e]), val)
     if (ln, col) != coord(buf, s):
@@ -275,14 +278,80 @@ def error_sig(e):
     return (type(e).__name__,)
 
 
-def tree_sig(t):
-    """canonical nested form of a result: trees with meta, tokens with all fields"""
+def value_kind(t, buf):
+    """'text' when the token's value has exactly the Python type of the input buffer (str stays str, bytes stays
+    bytes), else the offending type name"""
+    return 'text' if type(t.value) is type(buf) else 'py:' + type(t.value).__name__
+
+
+def tree_sig(t, buf=''):
+    """canonical nested form of a result: trees with meta, tokens with all fields and the kind of their value;
+    lists/tuples (fork pairs, scan matches (start, end, tree)) element-wise"""
     from lark import Tree, Token
     if isinstance(t, Tree):
-        return ('T', str(t.data), meta_fields(t.meta)[:3], tuple(tree_sig(c) for c in t.children))
+        return ('T', str(t.data), meta_fields(t.meta)[:3], tuple(tree_sig(c, buf) for c in t.children))
     if isinstance(t, Token):
-        return ('K',) + tok_fields(t)
+        return ('K',) + tok_fields(t) + (value_kind(t, buf),)
+    if isinstance(t, ScanHit):
+        return ('R', t.start, t.end, tree_sig(t.value, buf))
+    if isinstance(t, (list, tuple)):
+        return ('L', tuple(tree_sig(c, buf) for c in t))
     return ('O', repr(t))
+
+
+class ScanHit:
+    def __init__(self, start, end, value):
+        self.start, self.end, self.value = start, end, value
+
+
+ROUTES_LALR = ('interactive', 'fork', 'immutable', 'scan')
+ROUTES_ANY = ('deepcopy', 'tree_copy', 'pickle')
+
+
+def run_route(lk, inp, api):
+    """the public ways of obtaining a result other than parse()/lex()"""
+    import copy
+    import pickle
+    from lark import Token
+    if api == 'interactive':
+        ip = lk.parse_interactive(inp)
+        last = None
+        for t in ip.lexer_thread.lex(ip.parser_state):
+            ip.feed_token(t)
+            last = t
+        return ip.feed_eof(last)
+    if api == 'fork':
+        # feed two tokens, fork, finish both the fork and the original
+        ip = lk.parse_interactive(inp)
+        stream = ip.lexer_thread.lex(ip.parser_state)
+        for _ in range(2):
+            t = next(stream, None)
+            if t is None:
+                break
+            ip.feed_token(t)
+        fork = ip.copy()
+        shallow = copy.copy(ip)
+        r_fork = fork.resume_parse()
+        r_shallow = shallow.resume_parse()
+        r_orig = ip.resume_parse()
+        return [r_fork, r_shallow, r_orig]
+    if api == 'immutable':
+        toks = list(lk.parse_interactive(inp).iter_parse())
+        imm = lk.parse_interactive(inp).as_immutable()
+        for t in toks:
+            imm = imm.feed_token(t)
+        end = Token.new_borrow_pos('$END', '', toks[-1]) if toks else Token('$END', '', 0, 1, 1)
+        return imm.feed_token(end).result
+    if api == 'scan':
+        return [ScanHit(m.range[0], m.range[1], m.value) for m in lk.scan(inp)]
+    res = lk.parse(inp)
+    if api == 'deepcopy':
+        return copy.deepcopy(res)
+    if api == 'tree_copy':
+        return res.copy()
+    if api == 'pickle':
+        return pickle.loads(pickle.dumps(res))
+    raise ValueError(api)
 
 
 def run_case(grammar, parser, lexer, text, rep='str', window=None, api='parse', extra=()):
@@ -305,9 +374,11 @@ def run_case(grammar, parser, lexer, text, rep='str', window=None, api='parse', 
             elif api == 'lex_all':
                 res = list(lk.lex(inp, dont_ignore=True))
                 out.update(kind='ok', result=res)
-            elif api == 'scan':
+            elif api == 'scan_raw':
                 res = [(m.range[0], m.range[1], m.value) for m in lk.scan(inp)]
                 out.update(kind='ok', result=res)
+            else:
+                out.update(kind='ok', result=run_route(lk, inp, api))
         except Exception as e:   # noqa
             out.update(kind='error', error=e, sig=error_sig(e))
     return out
@@ -329,6 +400,8 @@ def result_tokens(out):
                 walk(c)
         elif isinstance(x, Token):
             add(x)
+        elif isinstance(x, ScanHit):
+            walk(x.value)
         elif isinstance(x, (list, tuple)):
             for c in x:
                 walk(c)
@@ -525,6 +598,11 @@ def gen_flat_grammar(rng):
     rng.shuffle(names)
     kept = names[:rng.randint(1, 4)]
     ignored = [n for n in names[4:6] if rng.random() < 0.5]
+    # a keyword is only interesting next to the regexp terminal that also matches it (UnlessCallback re-typing)
+    if rng.random() < 0.3 and 'KW' not in kept + ignored:
+        kept.append('KW')
+    if 'KW' in kept + ignored and 'WORD' not in kept + ignored:
+        kept.append('WORD')
     if 'ML' in kept + ignored and 'DOTS' in kept + ignored:
         (kept if 'DOTS' in kept else ignored).remove('DOTS')
     defs = {n: PLAIN_TERMS[n][0] for n in kept + ignored}
